@@ -135,7 +135,9 @@ pub trait BlsTimeCrypt:
 
         let mut w = vec![0u8; msg.len()];
         reader.read(&mut w);
-        debug_assert!(!w.iter().all(|x| *x == 0));
+        // honest payloads are at least 32 bytes; shorter ones only come from foreign
+        // ciphertexts and may legitimately have an all-zero (or empty) key stream
+        debug_assert!(w.len() < 32 || !w.iter().all(|x| *x == 0));
         // W = HℓX(\alpha) ⊕ M
         byte_xor(msg, &w)
     }
